@@ -240,12 +240,13 @@ class FactoredInference:
                 if nols or curr_loss - ans[0] >= 0.5*alpha*dL.dot(nu-mu):
                     break
                 alpha *= 0.5
-            if not nols and curr_loss - ans[0] <= 0:
+            if not nols and not (curr_loss - ans[0] > 0):
                 # the step brought no decrease (e.g. the marginals are saturated at a vertex of
-                # the simplex): keep the previous iterate and do not let the step size grow,
-                # otherwise theta doubles every iteration until it leaves floating point range
+                # the simplex): keep the previous iterate, otherwise theta doubles every iteration
+                # until it leaves floating point range. The step size keeps growing, so that a
+                # (warm) start inside a saturated region is left once a step can move the marginals
                 theta, mu, ans = omega, nu, (curr_loss, dL)
-                alpha *= 0.5
+                if not np.isfinite(alpha): break
 
         model.potentials = theta
         model.marginals = mu
